@@ -86,6 +86,10 @@ var partPool = [][]string{
 	{"p=1,app=a", "app=a, p=1", "{p=1,app=a}", "p=1 , app=a"},
 	{"p=2,app=a", "{app=a,p=2}", "app=a,p=2"},
 	{"p=3,app=b", "app=b,p=3"},
+	// differs from the first one only in the case of a letter; a value with a blank inside; a prefix of another value
+	{"p=1,app=A", "app=A,p=1"},
+	{"p=1,app=\"a b\"", "app=\"a b\" , p=1"},
+	{"p=1,app=ab", "app=ab,p=1"},
 }
 var badTags = []string{"", "novalue", "{p=1", "a=b=c,,"}
 
@@ -144,6 +148,11 @@ func sameShapeAEs(r *Rng, n int, budget *int) []AE {
 			f = "" // a record without fields between records with fields
 		}
 		*budget -= len(msg) + 30
+		if i > 0 && r.Chance(1, 5) {
+			// the same event again (same timestamp, message, fields): both are stored
+			evs = append(evs, evs[len(evs)-1])
+			continue
+		}
 		evs = append(evs, AE{Ts: base + int64(i), Msg: msg, Flds: f})
 	}
 	return evs
@@ -163,16 +172,28 @@ func genE2E(r *Rng) E2EReplay {
 	if r.Chance(1, 10) {
 		rp.MaxRec = int64(r.PickInt(40, 64, 100)) // some records will exceed it
 	}
+	exact := rp.MaxRec < 4096 && r.Chance(1, 2)
 	nparts := r.Range(1, 3)
+	// the partitions of the case: any of the pool (among them pairs that differ in the case of a letter only)
+	perm := r.Perm(len(partPool))
 	budget := 1800
 	nreq := r.Range(1, 7)
 	for i := 0; i < nreq && budget > 0; i++ {
-		p := partPool[r.Intn(nparts)]
+		p := partPool[perm[r.Intn(nparts)]]
 		tags := p[r.Intn(len(p))]
 		if r.Chance(1, 12) {
 			tags = badTags[r.Intn(len(badTags))]
 		}
 		n := r.PickInt(0, 1, 1, 2, 3, 5, 8, 17)
+		if i > 0 && r.Chance(1, 10) {
+			// the previous request once more: written twice, stored twice
+			prev := rp.Reqs[len(rp.Reqs)-1]
+			if prev.Kind != "raw" && len(prev.Flds) < 200 {
+				budget -= 40 * (len(prev.Aes) + len(prev.Les))
+				rp.Reqs = append(rp.Reqs, prev)
+				continue
+			}
+		}
 		switch x := r.Intn(10); {
 		case x < 6 && n >= 2 && r.Chance(1, 3):
 			rp.Reqs = append(rp.Reqs, Req{Kind: "rpc", Tags: tags, Flds: r.PickStr("", "", "w=1"), Aes: sameShapeAEs(r, n, &budget)})
@@ -218,6 +239,13 @@ func genE2E(r *Rng) E2EReplay {
 			}
 			rp.Reqs = append(rp.Reqs, Req{Kind: "raw", Body: body})
 		}
+	}
+	if exact {
+		// records of exactly MaxRecordSize (stored, readable) and MaxRecordSize+1 bytes (refused): 1 + 8 + 1 + message
+		p := partPool[perm[0]]
+		at := r.Bytes(int(rp.MaxRec)-10, []byte("abcdefgh"))
+		rp.Reqs = append(rp.Reqs, Req{Kind: "dir", Tags: p[0], Les: []LE{{Ts: 7, Msg: at}}},
+			Req{Kind: "rpc", Tags: p[0], Aes: []AE{{Ts: 8, Msg: append(append([]byte{}, at...), 'x')}}})
 	}
 	return rp
 }
@@ -354,17 +382,78 @@ func corpus() []Replay {
 	}}
 	// MaxRecordSize 0 in the configuration: writers and readers work with the dependency's default (16384); a record
 	// above it is rejected, one just below it is stored and its write event is right
-	mk := func(n int, c byte) []byte { return []byte(strings.Repeat(string(c), n)) }
+	mk := func(n int, c byte) []byte { return []byte(strings.Repeat(string(rune(c)), n)) }
 	defRec := E2EReplay{Kind: "pos", MaxChunk: 65536, MaxRec: 0, Note: "MaxRecordSize=0: the default limit", Reqs: []Req{
 		{Kind: "dir", Tags: "p=1,app=a", Les: []LE{{Ts: 1, Msg: []byte("small")}}},
 		{Kind: "dir", Tags: "p=1,app=a", Les: []LE{{Ts: 2, Msg: []byte("before")}, {Ts: 3, Msg: mk(16384, 'o')}, {Ts: 4, Msg: []byte("after the oversize one")}}},
 		{Kind: "dir", Tags: "p=1,app=a", Les: []LE{{Ts: 5, Msg: mk(16384-12, 'f')}}},
+		// records of exactly 16384 (the limit: taken) and 16385 bytes (refused): 1 + 8 + 2 + message
+		{Kind: "dir", Tags: "p=1,app=a", Les: []LE{{Ts: 6, Msg: mk(16384-11, 'g')}}},
+		{Kind: "dir", Tags: "p=1,app=a", Les: []LE{{Ts: 7, Msg: mk(16384-10, 'h')}}},
 	}}
 	// a service without the configuration: no limit, the same oversize record is taken
 	noLim := E2EReplay{Kind: "pos", MaxChunk: 1000, MaxRec: 64, NoLimit: true, Note: "no write limit (w_limit = 0)", Reqs: []Req{
 		{Kind: "dir", Tags: "p=1,app=a", Les: []LE{{Ts: 1, Msg: []byte("small")}, {Ts: 2, Msg: mk(100, 'b')}, {Ts: 3, Msg: []byte("after")}}},
 	}}
-	return []Replay{{E2E: &oversize}, {E2E: &trunc}, {E2E: &roll}, {E2E: &limit}, {E2E: &tail}, {E2E: &defRec}, {E2E: &noLim}}
+	// ---- boundaries (generator audit): the exact value and both neighbours of every size the mechanism compares
+	// records of MaxRecordSize-1, MaxRecordSize (both stored and readable) and MaxRecordSize+1 bytes (rejected), through
+	// the RPC and directly, without and with fields (record = 1 + 8 + prefix + message [+ prefix + fields])
+	atRec := E2EReplay{Kind: "e2e", MaxChunk: 65536, MaxRec: 100, Note: "records of MaxRecordSize-1 / MaxRecordSize / MaxRecordSize+1 bytes", Reqs: []Req{
+		{Kind: "rpc", Tags: "p=1,app=a", Aes: []AE{{Ts: 1, Msg: mk(89, 'a')}}},
+		{Kind: "rpc", Tags: "p=1,app=a", Aes: []AE{{Ts: 2, Msg: mk(90, 'b')}}},
+		{Kind: "rpc", Tags: "p=1,app=a", Aes: []AE{{Ts: 3, Msg: mk(91, 'c')}}},
+		{Kind: "dir", Tags: "p=1,app=a", Les: []LE{{Ts: 4, Msg: mk(90, 'd')}, {Ts: 5, Msg: mk(91, 'e')}, {Ts: 6, Msg: mk(1, 'f')}}},
+		{Kind: "rpc", Tags: "p=1,app=a", Flds: "f=1", Aes: []AE{{Ts: 7, Msg: mk(85, 'g')}, {Ts: 8, Msg: mk(84, 'h')}}},
+		{Kind: "rpc", Tags: "p=1,app=a", Flds: "f=1", Aes: []AE{{Ts: 9, Msg: mk(86, 'i')}}},
+		{Kind: "rpc", Tags: "p=1,app=a", Aes: []AE{{Ts: 10, Msg: mk(86, 'j'), Flds: "f=1"}, {Ts: 11, Msg: mk(85, 'k'), Flds: "f=1"}}},
+	}}
+	// chunk sizes at the sum of whole records: every record takes 4 + 26 bytes of the chunk; MaxChunkSize 59 / 60 / 61
+	edge := func(mc int64) *E2EReplay {
+		var aes []AE
+		for i := 0; i < 7; i++ {
+			aes = append(aes, AE{Ts: int64(100 + i), Msg: mk(16, byte('a'+i))})
+		}
+		return &E2EReplay{Kind: "e2e", MaxChunk: mc, MaxRec: 4096, Note: "chunk size at a whole number of records", Reqs: []Req{
+			{Kind: "rpc", Tags: "p=1,app=a", Aes: aes[:5]}, {Kind: "dir", Tags: "p=1,app=a", Les: []LE{{Ts: 200, Msg: mk(16, 'x')}, {Ts: 201, Msg: mk(16, 'y')}}}, {Kind: "rpc", Tags: "p=1,app=a", Aes: aes[5:]}}}
+	}
+	// one batch of 260 events (more than one byte of the count, more than the 4096 bytes the result builder starts
+	// with, several chunks), message lengths around the step of the length prefix (127 | 128)
+	var manyAes []AE
+	for i := 0; i < 260; i++ {
+		m := []byte(fmt.Sprintf("e%03d", i))
+		if i%64 == 63 {
+			m = mk(126+i/64%4, byte('A'+i/64))
+		}
+		manyAes = append(manyAes, AE{Ts: int64(1000 + i/2), Msg: m})
+	}
+	many := E2EReplay{Kind: "e2e", MaxChunk: 1000, MaxRec: 4096, Note: "260 events in one batch", Reqs: []Req{{Kind: "rpc", Tags: "p=2,app=a", Flds: "w=1", Aes: manyAes}}}
+	// equal neighbours: the same batch twice (RPC and direct), the same event twice inside a batch, partitions whose tags
+	// differ in the case of a letter only / are prefixes of each other / hold a blank, the same content in all of them
+	same := []AE{{Ts: 5, Msg: []byte("same"), Flds: "f=1"}, {Ts: 5, Msg: []byte("same"), Flds: "f=1"}, {Ts: 5, Msg: []byte("samf"), Flds: "f=1"}}
+	sameLes := []LE{{Ts: 5, Msg: []byte("same"), Flds: []byte("\x01f\x011")}, {Ts: 5, Msg: []byte("same"), Flds: []byte("\x01f\x011")}}
+	twins := E2EReplay{Kind: "e2e", MaxChunk: 150, MaxRec: 4096, Note: "the same batch twice; partitions that differ in case only", Reqs: []Req{
+		{Kind: "rpc", Tags: "p=1,app=a", Aes: same}, {Kind: "rpc", Tags: "p=1,app=a", Aes: same},
+		{Kind: "rpc", Tags: "p=1,app=A", Aes: same}, {Kind: "rpc", Tags: "P=1,app=a", Aes: same[:1]},
+		{Kind: "dir", Tags: "app=a,p=1", Les: sameLes}, {Kind: "dir", Tags: "app=a,p=1", Les: sameLes},
+		{Kind: "rpc", Tags: "p=1,app=ab", Aes: same[2:]}, {Kind: "rpc", Tags: "p=1,app=\"a b\"", Aes: same[:2]},
+		{Kind: "rpc", Tags: "p=1,app=a", Aes: nil}, {Kind: "dir", Tags: "p=1,app=a", Les: nil},
+	}}
+	// more pairs than the 20 the field parser's fixed array holds, on both levels; 19 / 20 / 21 pairs
+	pairs := E2EReplay{Kind: "e2e", MaxChunk: 65536, MaxRec: 4096, Note: "19 / 20 / 21 / 25 field pairs", Reqs: []Req{
+		{Kind: "rpc", Tags: "p=3,app=b", Flds: manyKV(19, "w"), Aes: []AE{{Ts: 1, Msg: []byte("m1"), Flds: manyKV(21, "e")}}},
+		{Kind: "rpc", Tags: "p=3,app=b", Flds: manyKV(20, "w"), Aes: []AE{{Ts: 2, Msg: []byte("m2"), Flds: manyKV(20, "e")}}},
+		{Kind: "rpc", Tags: "p=3,app=b", Flds: manyKV(21, "w"), Aes: []AE{{Ts: 3, Msg: []byte("m3"), Flds: manyKV(19, "e")}}},
+		{Kind: "rpc", Tags: "p=3,app=b", Flds: manyKV(25, "w"), Aes: []AE{{Ts: 4, Msg: []byte("m4"), Flds: manyKV(25, "e")}, {Ts: 5, Msg: []byte("m5")}}},
+	}}
+	// the count of a packet at the ends of uint32 (two events carried): rejected, the two events may be stored
+	hugeBody, _, _ := rpc.VC01EncodeWritePacket("p=1,app=a", "", toApis(same[:2]))
+	hdr2 := len(hugeBody) - 2*rpc.VC01LogEventSize(toApi(same[0]))
+	copy(hugeBody[hdr2-4:hdr2], []byte{0xff, 0xff, 0xff, 0xff})
+	halfBody := append([]byte{}, hugeBody...)
+	copy(halfBody[hdr2-4:hdr2], []byte{0x80, 0, 0, 0})
+	counts := E2EReplay{Kind: "e2e", MaxChunk: 65536, MaxRec: 4096, Note: "packet counts 0xffffffff and 0x80000000", Reqs: []Req{{Kind: "raw", Body: hugeBody}, {Kind: "raw", Body: halfBody}}}
+	return []Replay{{E2E: &oversize}, {E2E: &trunc}, {E2E: &roll}, {E2E: &limit}, {E2E: &tail}, {E2E: &defRec}, {E2E: &noLim},
+		{E2E: &atRec}, {E2E: edge(59)}, {E2E: edge(60)}, {E2E: edge(61)}, {E2E: &many}, {E2E: &twins}, {E2E: &pairs}, {E2E: &counts}}
 }
 
 // ---------------------------------------------------------------- crash isolation
